@@ -69,6 +69,7 @@ from exabgp.rib.route import Route
 # IP address validation constants
 EXTENDED_COMMUNITY_TARGET_PARTS = 2  # Target extended community has 2 parts (ASN:value)
 COMMUNITY_HALF_MAX = 0xFFFF  # each half of a community written as <n>:<n> is two octets (RFC 1997)
+LARGE_COMMUNITY_PART_MAX = 0xFFFFFFFF  # each part of a large community is four octets (RFC 8092)
 
 
 def prefix(tokeniser: 'Tokeniser') -> IPRange:
@@ -414,13 +415,13 @@ def _large_community(value: str) -> LargeCommunity:
     if separator > 0:
         prefix, affix, suffix = value.split(':')
 
-        if not any(map(lambda c: c.isdigit(), [prefix, affix, suffix])):
+        if not all(map(lambda c: c.isdigit(), [prefix, affix, suffix])):
             raise ValueError('invalid community {}'.format(value))
 
         prefix_int, affix_int, suffix_int = map(int, [prefix, affix, suffix])
 
         for i in [prefix_int, affix_int, suffix_int]:
-            if i > LargeCommunity.MAX:
+            if i > LARGE_COMMUNITY_PART_MAX:
                 raise ValueError('invalid community %i in %s too large' % (i, value))
 
         return LargeCommunity(pack('!LLL', prefix_int, affix_int, suffix_int))
